@@ -91,6 +91,19 @@ type Case struct {
 	// socket); the clients always connect to 127.0.0.1, so behind a wildcard listener the connection's local address is
 	// not the listener's configured one. Placed by the case index like the strata, not drawn by genCase.
 	Bind string `json:"listener_bind,omitempty"`
+	// LongGraceful (SIGHUP only, placed by the case index): graceful_timeout is 7 s instead of 0.5 s, so the hand-over of
+	// the xprotocol connections happens 7..14 s after the old server stopped its connections, and one more bolt client,
+	// whose connection was used once before the signal, stays SILENT through that whole wait and sends its next request
+	// only after the hand-over: a connection nobody talks on has to be handed over like a busy one.
+	LongGraceful bool `json:"long_graceful,omitempty"`
+}
+
+// gracefulOf is the servers[].graceful_timeout of a case.
+func gracefulOf(cs Case) time.Duration {
+	if cs.LongGraceful {
+		return 7 * time.Second
+	}
+	return gracefulMs * time.Millisecond
 }
 
 // bindChoices: the wildcard forms are used only where the sandbox's loopback serves them (checked once).
@@ -220,6 +233,7 @@ type run struct {
 	stop2Once sync.Once
 	wg2       sync.WaitGroup
 	survOK    int32 // answered survivor requests
+	quietOK   int32 // the quiet survivor's request after the hand-over was answered
 	survH1OK      int32 // answered requests of the HTTP/1.1 survivor
 	survH1Redials int32 // connections it had to open again after a "Connection: close"
 	survDead  int32 // the survivor's connection failed (recorded as a result)
@@ -449,6 +463,65 @@ func (r *run) survivor() {
 	}
 }
 
+// quietSurvivor (hot upgrade with a long graceful_timeout only): a bolt connection that carried one exchange before the
+// signal and then carries nothing until the old server has handed its connections over (seen in the log: StopConnection,
+// then 2 x graceful_timeout + 1 s); its next request - on the connection the new server now owns - has to be answered.
+func (r *run) quietSurvivor() {
+	defer r.wg2.Done()
+	const id = 12
+	halted := func() bool {
+		select {
+		case <-r.stop2:
+			return true
+		default:
+			return false
+		}
+	}
+	var conn xconn
+	for conn == nil && !halted() && !r.isSignalled() {
+		c, err := r.dial("bolt")
+		if err != nil {
+			time.Sleep(5 * time.Millisecond)
+			continue
+		}
+		conn = c
+	}
+	if conn == nil {
+		return
+	}
+	defer conn.close()
+	exchange := func(seq int) bool {
+		p := newPlan(fmt.Sprintf("k%d-quiet-%d", r.no, seq), 100+seq, 100+seq, 0)
+		r.ups["bolt"].add(p)
+		res := &result{Client: id, Seq: seq, Proto: "bolt", Token: p.Token, KeepAlive: true, NewConn: seq == 0, Survivor: true, Quiet: seq > 0, StartMs: r.ms(), ReqSize: p.ReqSize, RespSize: p.RespSize, plan: p}
+		conn.do(p, nil, res)
+		res.EndMs = r.ms()
+		r.record(res)
+		return res.ok()
+	}
+	if r.isSignalled() || !exchange(0) {
+		return // no exchange before the signal: nothing to observe
+	}
+	// silence until the hand-over is certainly over
+	var seen time.Time
+	for !halted() {
+		if seen.IsZero() && r.logHas("[server] StopConnection") > 0 {
+			seen = time.Now()
+		}
+		if !seen.IsZero() && time.Since(seen) > 2*gracefulOf(r.cs)+time.Second {
+			break
+		}
+		time.Sleep(50 * time.Millisecond)
+	}
+	if halted() {
+		return
+	}
+	if exchange(1) {
+		atomic.AddInt32(&r.quietOK, 1)
+		exchange(2)
+	}
+}
+
 // survivorH1 (hot upgrade only): one HTTP/1.1 keep-alive client whose connection was opened before the signal and
 // whose requests are uploads that reach the proxy in several reads. It goes on through the whole switch and beyond the
 // exit of the old process: "other existing connections keep being served by the old process while it drains" - the old
@@ -661,7 +734,7 @@ func (r *run) writeConfig() (string, error) {
 		"servers": []interface{}{map[string]interface{}{
 			"default_log_path":  filepath.Join(r.dir, "logs", "default.log"),
 			"default_log_level": logLevel(),
-			"graceful_timeout":  fmt.Sprintf("%dms", gracefulMs),
+			"graceful_timeout":  fmt.Sprintf("%dms", gracefulOf(r.cs).Milliseconds()),
 			"routers":           routers,
 			"listeners":         listeners,
 		}},
@@ -875,6 +948,10 @@ func execute(cs Case) (o *outcome, r *run, infra string) {
 		go r.survivor()
 		r.wg2.Add(1)
 		go r.survivorH1()
+		if cs.LongGraceful {
+			r.wg2.Add(1)
+			go r.quietSurvivor()
+		}
 	}
 
 	// upstream-side phases: the coordinator fires when the upstream reports the phase
@@ -934,14 +1011,14 @@ func execute(cs Case) (o *outcome, r *run, infra string) {
 		}
 		// keep the load up across the whole switch: new server start, 3 s pause, drain of the old server,
 		// connection hand-over (1x..2x graceful_timeout after "StopConnection")
-		capT := time.Now().Add(upgradeSleep + time.Duration(drainTimeS)*time.Second + 12*time.Second)
+		capT := time.Now().Add(upgradeSleep + time.Duration(drainTimeS)*time.Second + 12*time.Second + 2*gracefulOf(cs))
 		var seen time.Time
 		for time.Now().Before(capT) {
 			if seen.IsZero() && r.logHas("[server] StopConnection") > 0 {
 				seen = time.Now()
 				o.StopConnMs = seen.Sub(r.tsig).Milliseconds()
 			}
-			if !seen.IsZero() && time.Since(seen) > 2*gracefulMs*time.Millisecond+700*time.Millisecond {
+			if !seen.IsZero() && time.Since(seen) > 2*gracefulOf(cs)+700*time.Millisecond {
 				break
 			}
 			if ex, _, _ := r.p.Exited(); ex {
@@ -956,7 +1033,7 @@ func execute(cs Case) (o *outcome, r *run, infra string) {
 		o.NewPids = r.p.Others()
 		o.Transferred = r.logHas("TransferRead NewConn Id")
 		// the old server exits after upgradeSleep + drain + 2*graceful_timeout + 2*DefaultConnReadTimeout
-		bound := upgradeSleep + time.Duration(drainTimeS)*time.Second + 2*gracefulMs*time.Millisecond + 2*connReadTO + exitBand
+		bound := upgradeSleep + time.Duration(drainTimeS)*time.Second + 2*gracefulOf(cs) + 2*connReadTO + exitBand
 		left := bound - time.Since(r.tsig)
 		if os.Getenv("C11_NOEXITWAIT") != "" { // debugging aid only
 			left = 0
